@@ -59,7 +59,15 @@ func NewSolver(cacheDir, workDir string, timeout, seed int) *Solver {
 	return &Solver{cacheDir: cacheDir, workDir: workDir, timeout: timeout, seed: seed, Stats: map[string]int{}}
 }
 
+var procSlots = make(chan struct{}, 16)
+
 func runOne(ctx context.Context, sd solverDef, file string, timeout, seed int) (string, string) {
+	select {
+	case procSlots <- struct{}{}:
+		defer func() { <-procSlots }()
+	case <-ctx.Done():
+		return "cancelled", ""
+	}
 	args := sd.args(file, timeout, seed)
 	cctx, cancel := context.WithTimeout(ctx, time.Duration(timeout+2)*time.Second)
 	defer cancel()
@@ -114,7 +122,7 @@ func (sv *Solver) Solve(name, query string) (result, solver string, secs float64
 	firstSat := ""
 	firstSatOut := ""
 	if r == "sat" {
-		firstSat, firstSatOut = solvers[0].name, out
+		return "sat", solvers[0].name, time.Since(start).Seconds(), out
 	}
 	if sv.smokeOnly {
 		return r, solvers[0].name, time.Since(start).Seconds(), ""
@@ -237,6 +245,23 @@ func (sv *Solver) SolveAll(obls []*Obligation, workers int, progress func(o *Obl
 					q := o.Query()
 					r, s, t, d := sv.Solve(o.Name, q)
 					o.Result, o.Solver, o.Seconds, o.Model = r, s, t, d
+					if r != "unsat" && r != "sat" && len(o.Split) > 1 && !sv.smokeOnly {
+						// case split on the incoming edges of the merge block
+						all := true
+						var tot float64
+						for _, c := range o.Split {
+							r2, _, t2, _ := sv.Solve(o.Name, o.QueryCase(c))
+							tot += t2
+							if r2 != "unsat" {
+								all = false
+								break
+							}
+						}
+						o.Seconds += tot
+						if all {
+							o.Result, o.Solver = "unsat", "split"
+						}
+					}
 				}
 				sv.mu.Lock()
 				sv.Stats[o.Result]++
